@@ -37,7 +37,8 @@ class Observation:
 
 def registry_of(spec: Dict[str, Any]) -> List[Dict[str, Any]]:
     r = spec.get('registry', 'std')
-    return stdreg.std_registry(spec['dispatcher']) if r == 'std' else r
+    # 'plain': the async dispatcher serving plain (non-coroutine) functions and views - it accepts both kinds
+    return stdreg.std_registry('sync' if spec.get('plain') else spec['dispatcher']) if r == 'std' else r
 
 
 def behaviours_of(spec: Dict[str, Any]) -> Dict[str, Any]:
